@@ -877,7 +877,6 @@ func (w *Worker) checkIndex(idx value, idxType types.Type, n int, what string) i
 		} else {
 			inRange = w.tt.Cmp(OpULt, t, w.tt.Const(t.W, uint64(n)))
 		}
-		w.st.obligations++
 		if !w.decide(lower(types.Typ[types.Bool], inRange), "bounds:"+what) {
 			panic(targetPanic{w.runtimeError(fmt.Sprintf("index out of range [sym] with length %d", n))})
 		}
@@ -1279,7 +1278,6 @@ func (w *Worker) indexRead(elems []value, idx value, idxType, elemType types.Typ
 	} else {
 		inRange = w.tt.Cmp(OpULt, t, w.tt.Const(t.W, uint64(n)))
 	}
-	w.st.obligations++
 	if !w.decide(lower(types.Typ[types.Bool], inRange), "bounds:index") {
 		panic(targetPanic{w.runtimeError(fmt.Sprintf("index out of range [sym] with length %d", n))})
 	}
